@@ -1,4 +1,13 @@
 #!/bin/bash
+# Builds vtool-sched: vtool with every map-range of the working tree routed through verifrt.Map.
 set -euo pipefail
 . "$(dirname "$0")/env.sh"
-echo "sched build: not yet implemented"
+B="$VERIF_ROOT/.build"
+rm -rf "$B/sched"; mkdir -p "$B/sched"
+if [ ! -x "$B/maprange" ] || [ "$VERIF_ROOT/tools/maprange/main.go" -nt "$B/maprange" ]; then
+  (cd "$VERIF_ROOT/tools/maprange" && GOFLAGS= go build -o "$B/maprange" main.go)
+fi
+(cd "$VERIF_REPO" && "$B/maprange" "$VERIF_REPO" "$B/sched")
+python3 "$VERIF_ROOT/bin/mkoverlay.py" "$B/overlay-sched.json" --sched
+cd "$VERIF_REPO"
+go build -tags verif -overlay "$B/overlay-sched.json" -o "$B/vtool-sched" ./zz_verif/vt
